@@ -327,6 +327,10 @@ def cfg_text(family, tier, prop):
     t += "  WithPrep = %s\n" % ("TRUE" if prop == "C19" else "FALSE")
     t += "SPECIFICATION MCSpec\nCONSTRAINT MCConstraint\nVIEW MCView\nCHECK_DEADLOCK FALSE\n"
     inv, prp = TLC_NAMES[prop]
+    if tier == "quick" and family not in ("money", "collateral"):
+        # the refinement of Ledger.tla costs about 3x: in the quick tier on one family per property
+        inv = [x for x in inv if x != "LedgerInv"]
+        prp = [x for x in prp if x != "LedgerRefined"]
     t += "INVARIANTS TypeOK " + " ".join(inv) + "\n"
     if prp:
         t += "PROPERTIES " + " ".join(prp) + "\n"
